@@ -67,6 +67,8 @@ type predWorld struct {
 	bech32  common.Address
 	staking common.Address
 	stats   *ratioStats
+	// (staking puppet, validator) pairs already used for a first delegation
+	delegated map[string]bool
 }
 
 func feats(p *vh.Prog) []string {
@@ -117,9 +119,10 @@ func (pw *predWorld) deployCrafted() {
 	var plans []*vh.TxPlan
 	var names []string
 	var featss [][]string
+	var endow *big.Int
 	add := func(name string, code []byte, f ...string) common.Address {
 		a := crypto.CreateAddress(d.Addr, base+uint64(len(plans)))
-		pl := w.PlanEth(d, nil, nil, 3_000_000, vh.Deployer(code), "ok", &vh.FeeShape{Type: 0, Price: new(big.Int).Mul(pw.c.BaseFee(), big.NewInt(3)), Kind: "x3"})
+		pl := w.PlanEth(d, nil, endow, 3_000_000, vh.Deployer(code), "ok", &vh.FeeShape{Type: 0, Price: new(big.Int).Mul(pw.c.BaseFee(), big.NewInt(3)), Kind: "x3"})
 		plans = append(plans, pl)
 		names = append(names, name)
 		featss = append(featss, f)
@@ -152,6 +155,14 @@ func (pw *predWorld) deployCrafted() {
 	// approve puppet: CALL erc20.approve(spender, amount) with all gas, return its data
 	add("puppet-erc20", vh.Forwarder(vh.CALL, pw.erc20, true), "call", "precompile")
 	add("puppet-bech32", vh.Forwarder(vh.STATICCALL, pw.bech32, true), "call", "precompile")
+	// staking puppets: forwarders that own coins of their own (endowed at creation), so that delegate() through them
+	// reads neither block context nor the SENDER's balance; each delegates to a validator at most once (a second
+	// delegation pays out rewards, which depend on the block the call lands in: outside the premise)
+	endow = vh.Ether(40)
+	for k := 0; k < 12; k++ {
+		add(fmt.Sprintf("puppet-staking-%d", k), vh.Forwarder(vh.CALL, pw.staking, true), "call", "precompile", "staking-write")
+	}
+	endow = nil
 	br := pw.c.NextBlock(plansTxs(plans), nil)
 	w.ResetPending()
 	for i, res := range br.TxResults() {
@@ -215,6 +226,22 @@ func (pw *predWorld) genCase() *predCase {
 		pc.Gas = uint64(vh.Pick(r, []int{21_700, 22_500, 30_000, 52_000, 100_000, 400_000}))
 	default:
 		t := vh.Pick(r, pw.targets)
+		if k < 8 { // a staking puppet that has a validator left for a first delegation
+			var free []*target
+			for _, c := range pw.targets {
+				if strings.HasPrefix(c.Desc, "crafted:puppet-staking") {
+					for _, v := range pw.c.Vals {
+						if !pw.delegated[c.Desc+"/"+v.Oper.String()] {
+							free = append(free, c)
+							break
+						}
+					}
+				}
+			}
+			if len(free) > 0 {
+				t = vh.Pick(r, free)
+			}
+		}
 		pc.To, pc.Desc, pc.Feats, pc.Target = addrPtr(t.Addr), t.Desc, t.Feats, "contract"
 		switch {
 		case strings.HasPrefix(t.Desc, "crafted:forward") || t.Desc == "crafted:burner":
@@ -223,10 +250,31 @@ func (pw *predWorld) genCase() *predCase {
 			pc.Data = mustPack(cpcabi.Erc20CpcInfo, "approve", vh.Pick(r, w.Pool), big.NewInt(int64(r.Intn(1_000_000))))
 		case t.Desc == "crafted:puppet-bech32":
 			pc.Data = mustPack(cpcabi.Bech32CpcInfo, "bech32EncodeAddress", "evm", vh.Pick(r, w.Pool))
+		case strings.HasPrefix(t.Desc, "crafted:puppet-staking"):
+			if pw.delegated == nil {
+				pw.delegated = map[string]bool{}
+			}
+			var val *vh.Validator
+			for _, v := range pw.c.Vals {
+				if !pw.delegated[t.Desc+"/"+v.Oper.String()] {
+					val = v
+					break
+				}
+			}
+			if val == nil { // every validator used by this puppet: a view through it
+				pc.Data = mustPack(cpcabi.StakingCpcInfo, "delegationOf", t.Addr, common.BytesToAddress(pw.c.Vals[0].Oper))
+				break
+			}
+			pw.delegated[t.Desc+"/"+val.Oper.String()] = true
+			pc.Data = mustPack(cpcabi.StakingCpcInfo, "delegate", common.BytesToAddress(val.Oper), vh.Ether(int64(1+r.Intn(5))))
+			pc.Desc += " delegate"
 		default:
 			pc.Data = r.Bytes(vh.Pick(r, []int{0, 0, 4, 36, 100}))
 		}
 		pc.Gas = uint64(vh.Pick(r, []int{21_000, 21_700, 23_000, 26_000, 30_000, 45_000, 70_000, 120_000, 300_000, 1_000_000, 8_000_000}))
+		if strings.HasSuffix(pc.Desc, " delegate") && !r.Chance(1, 4) { // the method asks for 300000 gas: around and above it
+			pc.Gas = uint64(vh.Pick(r, []int{330_000, 340_000, 400_000, 1_000_000, 8_000_000}))
+		}
 		if r.Chance(1, 5) {
 			pc.Value = big.NewInt(int64(1 + r.Intn(5000)))
 		}
@@ -436,6 +484,9 @@ func (pw *predWorld) predict(i int) {
 	}
 	if len(got.Logs) > 0 {
 		run.Count("predictions_with_logs", 1)
+		if strings.HasSuffix(pc.Desc, " delegate") {
+			run.Count("predictions_of_staking_delegations_with_logs", 1)
+		}
 	}
 	fkey := strings.Join(pc.Feats, ",")
 	run.Nontrivial(fmt.Sprintf("predict|%s|%s|gasdep=%v|fee%d|%s", pc.Target, got.class(), gasDep, pc.FeeType, fkey))
